@@ -279,6 +279,19 @@ func genC15(g *G) {
 		}
 		g.Emit("lr", lim, joinInts(pl), H(stream(sl)), joinPairs(sc))
 	}
+	// long runs of reads that make no progress ((0, nil) again and again), then data
+	for _, zeros := range []int{98, 99, 100, 101, 150, 300} {
+		var pl []int
+		var sc [][2]int
+		for j := 0; j < zeros; j++ {
+			pl = append(pl, 4)
+			sc = append(sc, [2]int{0, 0})
+		}
+		pl = append(pl, 4, 4, 4)
+		sc = append(sc, [2]int{3, 0}, [2]int{0, 0}, [2]int{5, 1})
+		g.Emit("lr", "10", joinInts(pl), H(stream(12)), joinPairs(sc))
+		g.Emit("lr", "2", joinInts(pl), H(stream(12)), joinPairs(sc))
+	}
 	// hostile counts (negative, zero, exact, over-long)
 	for i := 0; i < g.N(4000, 80000); i++ {
 		lim := limits[g.Rnd.IntN(len(limits))]
